@@ -414,7 +414,8 @@ def work_modeliso(arg):
 
 def _work_modeliso(arg):
     import pygaps
-    name, params = arg
+    name, params = arg[0], arg[1]
+    variant = arg[2] if len(arg) > 2 else 'K'       # how the isotherm states its temperature: in K, in degrees Celsius, in Celsius and re-read from its JSON export
     out = {'ev': 0, 'nt': 0, 'viol': []}
     T = 77.355
     c = ru.ads_consts(pygaps.Adsorbate.find('N2').backend_name, T)
@@ -425,8 +426,18 @@ def _work_modeliso(arg):
     hi = ml.p_range(name, params) if m.calculates == 'loading' else ml.n_range(name, params)
     m.pressure_range = (0.01, 1.0)
     m.loading_range = (0.01, 1.0)
-    iso = pygaps.ModelIsotherm(model=m, material=pygaps.Material('c10', **MAT), adsorbate='N2', temperature=T, temperature_unit='K',
-                               **dict(zip(keys, S)))
+    if variant == 'K':
+        iso = pygaps.ModelIsotherm(model=m, material=pygaps.Material('c10', **MAT), adsorbate='N2', temperature=T, temperature_unit='K',
+                                   **dict(zip(keys, S)))
+    else:
+        # the same physical temperature written in degrees Celsius (the bare model m above stays the reference: it holds T in kelvin)
+        iso = pygaps.ModelIsotherm(model=ml.mk(name, params, T), material=pygaps.Material('c10', **MAT), adsorbate='N2', temperature=T - 273.15, temperature_unit='°C',
+                                   **dict(zip(keys, S)))
+        iso.model.pressure_range = (0.01, 1.0)
+        iso.model.loading_range = (0.01, 1.0)
+        if variant == 'C-json':
+            import pygaps.parsing as pgp
+            iso = pgp.isotherm_from_json(pgp.isotherm_to_json(iso))
     reqs = [('absolute', 'kPa', 'mass', 'mg', 'mass', 'kg'), ('relative%', None, 'volume_liquid', 'cm3', 'volume', 'cm3'),
             ('absolute', 'torr', 'molar', 'cm3(STP)', 'molar', 'mmol'), ('relative', None, 'fraction', None, 'volume', 'cm3'), ('absolute', 'bar', 'percent', None, 'mass', 'kg')]
     if S[0] == 'relative':
@@ -534,7 +545,7 @@ def run(ctx):
         noreturn += r['noreturn']
         for k, e in r['worst'].items():
             ctx.track(k, e, {'henry_limit': 1e-2, 'forward_array_vs_scalar': 1e-11, 'inverse_closed': TOL_CLOSED * 100, 'inverse_numeric': TOL_NUM}.get(k, 1.0))
-    res2 = core.pmap(work_modeliso, [(n, pl[len(pl) // 2]) for n, pl in lat.items()], chunk=1)
+    res2 = core.pmap(work_modeliso, [(n, pl[len(pl) // 2], var) for n, pl in lat.items() for var in ('K', 'C', 'C-json')], chunk=1)
     for r in res2:
         ctx.add('model_isotherm', r['ev'], r['nt'])
         ctx.violate(r['viol'])
